@@ -45,8 +45,6 @@ OPEN_STATEMENTS = [
     'only ffft_spec_partial (index recursion = DFT exponent table for every factor list) is proved — the prime-size blocks are '
     'bogoliubov_transform circuits (C11); the extension from the one-particle sector to the full Fock space (U a^_k U^-1 as an '
     'operator identity) and the normalisation 2^{-M/2} are the oracle',
-    'swap_network: the number of callback calls n(n-1)/2 is implied by swap_network_pair_once + swap_network_calls_adjacent '
-    'but not stated as a separate theorem',
 ]
 ASSUMPTIONS = [
     'cirq.unitary / cirq.Circuit.unitary, scipy.linalg.expm and numpy are trusted numerical kernels (abs. tol. 1e-9)',
